@@ -267,8 +267,9 @@ class MTSPContext(EnvContext):
         self.proj_dynamic_feats = nn.Linear(proj_in_dim, embed_dim, bias=linear_bias)
 
     def _cur_node_embedding(self, embeddings, td):
+        # gather_by_index already drops the index dimension; a bare squeeze() would also drop a batch dimension of size 1
         cur_node_embedding = gather_by_index(embeddings, td["current_node"])
-        return cur_node_embedding.squeeze()
+        return cur_node_embedding
 
     def _state_embedding(self, embeddings, td):
         dynamic_feats = torch.stack(
